@@ -253,6 +253,7 @@ package graphql
 //@ func planArguments
 //@   props C01 C05 C06
 //@   nosafety
+//@   assigns nothing
 //@   ensures result.hasVariables <==> ((len(argDefs) != 0 || len(argASTs) != 0) && astHasVariables_0(argASTs))
 //@   ensures result.hasVariables ==> result.argASTs == argASTs && result.fieldDefArgs == argDefs
 
@@ -562,7 +563,10 @@ package graphql
 //@ func Plan.collectInto
 //@   props C01 C13 C20
 //@   nosafety
-//@   requires p != nil && sp != nil && selectionSet != nil && keyed != nil
+//@   requires p != nil
+//@   requires sp != nil
+//@   requires selectionSet != nil
+//@   requires keyed != nil
 //@   at[C01,C13] call append#2: assert !has(keyed, responseKey)
 //@   at[C13] call append#2: assert arg0 == sp.fields
 //@   at[C01,C20] call append#1: assert has(keyed, responseKey) && arg0 == sp.fields[keyed[responseKey]].fieldASTs
@@ -571,6 +575,7 @@ package graphql
 //@ func Plan.planMergedSelectionsForType
 //@   props C19 C01
 //@   nosafety
+//@   requires p != nil
 //@   loop 1 ensures visited == atloop(1, visited) && keyed == atloop(1, keyed)
 //@   at[C01] call collectInto: assert arg1 == parentType && arg3 == visited && arg4 == sp && arg5 == keyed
 
@@ -587,7 +592,7 @@ package graphql
 //@ func ExecutePlan$2
 //@   props C13 C20 C05
 //@   nosafety
-//@   at[C13] return: assert calls("executePlannedSelection") == 1 && plan.isMutation ==> calls("dethunkMapDepthFirst") == 1 && calls("dethunkMapWithBreadthFirstTraversal") == 0
-//@   at[C13] return: assert calls("executePlannedSelection") == 1 && !plan.isMutation ==> calls("dethunkMapDepthFirst") == 0 && calls("dethunkMapWithBreadthFirstTraversal") == 1
+//@   at[C13] return: assert calls("executePlannedSelection") == 1 && old(plan.isMutation) ==> calls("dethunkMapDepthFirst") == 1 && calls("dethunkMapWithBreadthFirstTraversal") == 0
+//@   at[C13] return: assert calls("executePlannedSelection") == 1 && !old(plan.isMutation) ==> calls("dethunkMapDepthFirst") == 0 && calls("dethunkMapWithBreadthFirstTraversal") == 1
 //@   at[C05] call executePlannedSelection: assert calls("getVariableValues") == 1 && err == nil
 //@   at[C20] call executePlannedSelection: assert arg1 == plan.root && arg2 == p.Root && arg3 == plan.rootType && arg4 == nil && arg0.Root == p.Root && arg0.Context == ctx && arg0.VariableValues == variableValues && arg0.plan == plan
